@@ -237,6 +237,19 @@ class VCondition:
         self.lock.count = cnt
         return ok
 
+    def wait_for(self, predicate, timeout=None):
+        end = None if timeout is None else W.now + timeout
+        result = predicate()
+        while not result:
+            remaining = None
+            if end is not None:
+                remaining = end - W.now
+                if remaining <= 0:
+                    break
+            self.wait(remaining)
+            result = predicate()
+        return result
+
     def notify_all(self):
         self.gen += 1
         s = W.sched
